@@ -10,8 +10,8 @@ SOURCE = 'sedfitter.source.source.Source'
 FLAGS = (0, 1, 2, 3, 4, 9)
 
 
-def make_source(c, prefix='src'):
-    N = c.int(prefix + '_n')
+def make_source(c, prefix='src', n=None):
+    N = c.int(prefix + '_n') if n is None else n
     c.assume(N >= 0)
     valid = c.array(prefix + '_valid', (N,), 'int')
     flux = c.array(prefix + '_flux', (N,))
@@ -56,6 +56,36 @@ def spec_log_flux(c, v, f, e):
                ite(bor(v == 2, v == 3), c.log10(f), ite(v == 4, f, 0.)))
 
 
+_SPEC = {}
+
+
+class SpecSource(object):
+    """Spec-level view of a source: W_j, LF_j, LE_j as *named* spec functions (uninterpreted
+    symbols with their defining axioms from the data-format page as quantified
+    hypotheses), so that sums over them have small canonical atoms.  LF and LE are left
+    unspecified at plot-only (flag 9) points."""
+
+    def __init__(self, c, source):
+        import z3
+        self.c = c
+        self.v, self.f, self.e = v, f, e = source_arrays(c, source)
+        self.N = v.n
+        K = Sc(z3.Int('K!'))
+        key = '|'.join(str(getattr(x[K], 't', x[K])) for x in (v, f, e))
+        if key not in _SPEC:
+            n = len(_SPEC)
+            sfx = '' if n == 0 else str(n)
+            _SPEC[key] = (c.fn('W' + sfx, 'int', 'real'), c.fn('LF' + sfx, 'int', 'real'), c.fn('LE' + sfx, 'int', 'real'))
+        self.W, self.LF, self.LE = _SPEC[key]
+        tag = ('spec-source', key)
+        if tag not in c.st.tags:
+            c.st.tags.add(tag)
+            W, LF, LE = self.W, self.LF, self.LE
+            c.assume(c.forall(self.N, lambda j: W(j) == spec_weight(c, v[j], f[j], e[j]), 'def.W', lazy=True))
+            c.assume(c.forall(self.N, lambda j: implies(bnot(v[j] == 9), LF(j) == spec_log_flux(c, v[j], f[j], e[j])), 'def.LF', lazy=True))
+            c.assume(c.forall(self.N, lambda j: implies(bnot(v[j] == 9), LE(j) == spec_log_error(c, v[j], f[j], e[j])), 'def.LE', lazy=True))
+
+
 @contract
 class GetLogFluxes(Contract):
     name = SOURCE + '.get_log_fluxes'
@@ -71,9 +101,11 @@ class GetLogFluxes(Contract):
         s = a.self
         v, f, e = source_arrays(c, s)
         N = v.n
-        W = c.fresh_array('weight', (N,))
-        LF = c.fresh_array('log_flux', (N,))
-        LE = c.fresh_array('log_error', (N,))
+        # definitional results: the arrays ARE the named spec functions of this source
+        sp = SpecSource(c, s)
+        W = c.defined_array((N,), lambda idx: sp.W(idx[0]))
+        LF = c.defined_array((N,), lambda idx: sp.LF(idx[0]))
+        LE = c.defined_array((N,), lambda idx: sp.LE(idx[0]))
         return (W, LF, LE)
 
     def ensures(self, c, a, result, old):
@@ -84,12 +116,12 @@ class GetLogFluxes(Contract):
         return {
             'shape': band(compare('==', W.n, N), band(compare('==', LF.n, N), compare('==', LE.n, N))),
             # fitted points: the documented transform; everything else has zero weight
-            'weight': c.forall(N, lambda j: W[j] == spec_weight(c, v[j], f[j], e[j]), 'weight'),
+            'weight': c.forall(N, lambda j: W[j] == spec_weight(c, v[j], f[j], e[j]), 'weight', lazy=True),
             'weight_nonneg': c.forall(N, lambda j: W[j] >= 0, 'weight>=0'),
             'weight_pos_fitted': c.forall(N, lambda j: implies(bor(v[j] == 1, v[j] == 4), W[j] > 0), 'weight>0'),
             # log fluxes: specified for every flag except 9 (plot only: any value)
-            'log_flux': c.forall(N, lambda j: implies(bnot(v[j] == 9), LF[j] == spec_log_flux(c, v[j], f[j], e[j])), 'log_flux'),
-            'log_error': c.forall(N, lambda j: implies(bnot(v[j] == 9), LE[j] == spec_log_error(c, v[j], f[j], e[j])), 'log_error'),
+            'log_flux': c.forall(N, lambda j: implies(bnot(v[j] == 9), LF[j] == spec_log_flux(c, v[j], f[j], e[j])), 'log_flux', lazy=True),
+            'log_error': c.forall(N, lambda j: implies(bnot(v[j] == 9), LE[j] == spec_log_error(c, v[j], f[j], e[j])), 'log_error', lazy=True),
         }
 
 
